@@ -264,22 +264,46 @@ def check(repo: Repo, run: Run) -> None:
         else:
             stores = 0
             bad_path = None
+            unclassified = False
             for p in gpaths:
                 dflt = [(k, v) for k, v in p.env.items() if k.endswith(".package") and "." in k]
                 if not dflt:
                     continue
                 holder = dflt[0][0].rsplit(".", 1)[0]
-                v = dflt[0][1]
-                if isinstance(v, ast.Constant) and v.value is None:
-                    continue
-                stores += 1
-                conds = _fc(p.conds)
                 holders = {holder} | ({ast.unparse(p.env[holder])} if holder in p.env else set())
-                no_doc = any((ast.unparse(t) == f"{h}.document" and not pol) or (ast.unparse(t) == f"{h}.document is None" and pol)
-                             or (ast.unparse(t) == f"{h}.document is not None" and not pol) for t, pol in conds for h in holders)
-                if not no_doc:
-                    bad_path = p
-            if stores == 0:
+
+                def leaves(v, conds):
+                    """(constant default, conditions under which it is the stored value)"""
+                    v = strip_cast(v)
+                    if isinstance(v, ast.IfExp):
+                        yield from leaves(v.body, conds + _fc([(v.test, True)]))
+                        yield from leaves(v.orelse, conds + _fc([(v.test, False)]))
+                    elif isinstance(v, ast.BoolOp) and isinstance(v.op, ast.Or):
+                        seen = list(conds)
+                        for x in v.values:
+                            yield from leaves(x, seen)
+                            seen = seen + _fc([(x, False)])
+                    elif isinstance(v, ast.Constant):
+                        yield v, conds
+                    elif isinstance(v, (ast.Name, ast.Attribute)):
+                        return  # an option value that was given, not a default
+                    else:
+                        yield None, conds
+
+                for leaf, conds in leaves(dflt[0][1], _fc(p.conds)):
+                    if leaf is None:
+                        unclassified = True
+                        continue
+                    if leaf.value is None:
+                        continue
+                    stores += 1
+                    no_doc = any((ast.unparse(t) == f"{h}.document" and not pol) or (ast.unparse(t) == f"{h}.document is None" and pol)
+                                 or (ast.unparse(t) == f"{h}.document is not None" and not pol) for t, pol in conds for h in holders)
+                    if not no_doc:
+                        bad_path = p
+            if bad_path is None and unclassified:
+                run.inconclusive("C20.S6", "get_options", "the value stored as the package was not classified")
+            elif stores == 0:
                 run.inconclusive("C20.S6", "get_options", "no path installs a default package (the way the default document name is chosen changed)")
             elif bad_path is not None:
                 run.ob("C20.S6", "get_options|default-package", False,
